@@ -65,6 +65,16 @@ def snapshot(root, cache_abs):
     return out
 
 
+def read_cache_json(cache_abs):
+    import gzip
+    import json
+    try:
+        with gzip.open(cache_abs, 'rt') as fh:
+            return json.load(fh)
+    except Exception as e:
+        return {'unreadable': repr(e)[:100]}
+
+
 def apply_tree(root, tree):
     for node in sorted(tree, key=lambda n: n[0]):
         p = os.path.join(root, node[0])
@@ -172,7 +182,8 @@ def run_case(case, hooks=None):
                     res = {'ok': wire.enc(r)}
                 except Exception as e:
                     res = {'exc': show_exc(e, ctx)}
-                obs = {'res': res, 'tree': snapshot(root, cache_abs), 'inv': ctx.inv,
+                obs = {'res': res, 'tree': snapshot(root, cache_abs), 'inv': ctx.inv, 'root': root,
+                       'cache_json': read_cache_json(cache_abs) if 'ok' in res and os.path.isfile(cache_abs) else None,
                        'queries': ctx.query_log,
                        'tmp_leak': [n for n in tmp_leftovers() if n not in before_tmp]}
                 if hooks and 'post_build' in hooks:
